@@ -399,12 +399,27 @@ package rtpconn
 //@   modifies *
 //@   ensures keeps: keeps(c)
 //@   ensures keeps-perms: keepsperms(c)
-//@ func leaveGroup
+//@ func delDownConn
 //@   trusted
-//@   why webclient.go: closes all connections, leaves the group (DelClient), sets c.group = nil and c.permissions = nil; verified separately (not yet)
+//@   why webclient.go: closes a down connection of c
 //@   requires nonnil: c != nil
 //@   modifies *
+//@   ensures keeps: keeps(c)
+//@   ensures keeps-perms: keepsperms(c)
+//@
+//@ func leaveGroup
+//@   props C11 C12
+//@   requires nonnil: c != nil
+//@   -- type invariant of webClient (actions is set at creation, the client loop holds none of these mutexes): assumed
+//@   assume wf: cwf(c)
+//@   requires nonmember: nonmember(c)
+//@   modifies *
+//@   invariant loop 1 keeps: same(c.group, old(c.group)) && c.id == old(c.id) && c.username == old(c.username) && cwf(c) && c.group != nil
+//@   invariant loop 2 keeps: same(c.group, old(c.group)) && c.id == old(c.id) && c.username == old(c.username) && cwf(c) && c.group != nil
+//@   -- C11: a client that has left holds no permission and no group; its identity is unchanged
 //@   ensures left: c.group == nil && len(c.permissions) == 0 && c.id == old(c.id) && c.username == old(c.username) && cwf(c)
+//@   -- C10/C14: a member leaves through group.DelClient (never by just forgetting the group)
+//@   assert at call DelClient member: c.group != nil && ref(arg_c) == ref(c)
 //@ func parseRequested
 //@   trusted
 //@   why webclient.go: converts a decoded JSON value; no effect on program state
@@ -667,3 +682,63 @@ package rtpconn
 //@   props C11 C12
 //@   modifies full(l)
 //@   ensures present: len(result) >= len(l)
+//@
+//@ -- ------------------------------------------------------------------ the reader loop of an up track (C03/C05/C06 call sites)
+//@ func (*rtpUpTrack).hasRtcpFb
+//@   trusted
+//@   why rtpconn.go: looks an RTCP feedback type up in the track's codec parameters
+//@   modifies nothing
+//@ func (*rtpUpTrack).sendNACK
+//@   trusted
+//@   why rtpconn.go: sends one generic NACK (first, bitmap) upstream
+//@   modifies nothing
+//@ func (*rtpUpTrack).sendPLI
+//@   trusted
+//@   why rtpconn.go: sends a PLI upstream
+//@   modifies nothing
+//@ func (*rtpWriterPool).add
+//@   trusted
+//@   why rtpwriter.go: adds or removes a down track from the writers (the pool's own structures and channels)
+//@   modifies object(wp)
+//@ func (*rtpWriterPool).close
+//@   trusted
+//@   why rtpwriter.go: stops the writers (the pool's own structures and channels)
+//@   modifies object(wp)
+//@ func (*rtpWriterPool).write
+//@   trusted
+//@   why rtpwriter.go: hands (seqno, index) to every writer goroutine (the pool's own structures and channels)
+//@   modifies object(wp)
+//@ extern (*unbounded.Channel[rtpconn.trackAction]).Get[rtpconn.trackAction]
+//@   why unbounded.go: takes the queued actions (verified for the instantiation Channel[any] under C13); touches the channel object only
+//@   modifies object(ch)
+//@ func readLoop$1
+//@   inline
+//@
+//@ func readLoop
+//@   ematch
+//@   props C03 C05 C06 C12
+//@   requires nonnil: track != nil && track.track != nil && track.cache != nil && track.rate != nil && track.jitter != nil && track.actions != nil
+//@   -- the cache as its constructor left it; nobody holds its mutex on this goroutine
+//@   requires cache: !held(track.cache.mu) && packetcache.cwf(track.cache) && packetcache.lens(track.cache) && track.cache.received <= track.cache.expected
+//@   modifies *
+//@   invariant loop 1 fields: track.track != nil && track.cache != nil && track.rate != nil && track.jitter != nil && track.actions != nil
+//@   invariant loop 1 cache-free: !held(track.cache.mu)
+//@   invariant loop 1 cache-wf: packetcache.cwf(track.cache)
+//@   invariant loop 1 cache-lens: packetcache.lens(track.cache)
+//@   invariant loop 1 cache-consistent: track.cache.received <= track.cache.expected
+//@   invariant loop 2 fields: track.track != nil && track.cache != nil && track.rate != nil && track.jitter != nil && track.actions != nil
+//@   invariant loop 2 cache-free: !held(track.cache.mu)
+//@   invariant loop 2 cache-wf: packetcache.cwf(track.cache)
+//@   invariant loop 2 cache-lens: packetcache.lens(track.cache)
+//@   invariant loop 2 cache-consistent: track.cache.received <= track.cache.expected
+//@   -- C03/C05: a packet is cached under the sequence number, with the marker, that stand in the cached bytes' own header
+//@   -- (this is what conn.UpTrack.GetPacket's contract relies on), and the bytes cached are exactly the packet read or re-serialised
+//@   assert at call Store own-header: len(arg_buf) >= 12 && arg_seqno == ((uint16(arg_buf[2]) << 8) | uint16(arg_buf[3])) && arg_seqno == packet.SequenceNumber
+//@        && arg_timestamp == packet.Timestamp && arg_marker == packet.Marker && arg_keyframe == kf
+//@   assert at call Store exact-length: atcall("Unmarshal", 1, packet.Extension) ? len(arg_buf) == first(callresult("MarshalTo", 1)) : len(arg_buf) == first(callresult("Read", 1))
+//@   -- C06: NACKs are asked of the bitmap for a window that ends 2 to 4 packets before the newest packet, only when the newest packet is
+//@   -- more than 2 (at most 24) packets beyond the first missing one, and exactly what the bitmap reports is sent
+//@   assert at call BitmapGet window: arg_next == packet.SequenceNumber - unnacked && 2 <= unnacked && unnacked <= 4 && uint32(delta) > packets && 2 <= packets && packets <= 24
+//@   assert at call sendNACK reported: first(callresult("BitmapGet", 1)) && sendNACK && arg_first == second(callresult("BitmapGet", 1)) && arg_bitmap == third(callresult("BitmapGet", 1))
+//@   -- the writers are told the slot the packet was stored in
+//@   assert at call write stored-slot: arg_seqno == packet.SequenceNumber && arg_index == second(callresult("Store", 1))
